@@ -7,7 +7,7 @@ from fractions import Fraction
 ID = "C09"
 BACKENDS = ("py",)          # duration.py does not touch the helper backends
 GEN_MODULES = ()
-MIN_THEOREMS = 14
+MIN_THEOREMS = 16
 RULE = ("ops: dur/absdur with 9 integer arguments (years months weeks days hours minutes seconds milliseconds microseconds) of mixed "
         "sign: small mixed tuples, single large components up to 10^6 (10^9 days for days), sign-cancelling tuples whose total is "
         "0 / +-1 us / +-1 s, negative totals with a sub-second part, unit multiples +-1 us, totals straddling 2^31, 2^32, 2^33, 2^34 "
